@@ -7,9 +7,14 @@
 //!          with the suffix `a` for its ADD-PATH variant (v4ua, v6mplsa, evpna, ...): 26 NLRI types
 //!   W    = `-` (no MP_UNREACH builder) | `e` (add_withdrawals_from_pdu of a foreign-family PDU: adds nothing) | tok+
 //!   A    = `-` | tok+            tok = <size> | <size>x<count>   (encoded NLRI size in bytes)
-//!   kind = `-` (family default, set_nexthop not called) | v4 | m4 | v6 | ll | ll2 | vpn4 | vpn6 | empty | unimpl
+//!   kind = `-` (family default, set_nexthop not called) | v4 | m4 | v6 | m6 | ll | ll2 | vpn4 | vpn6 | empty | unimpl
 //!          | ll3 (set_nexthop_ll_addr alone) | v4ll (set_nexthop(IPv4) then set_nexthop_ll_addr: no such next hop)
-//!   len  = total encoded size of the (non-MP) path attributes, 0 or >= 3
+//!          | m6ll (set_nexthop(Multicast(IPv6)) then set_nexthop_ll_addr: refused, update_builder.rs:185)
+//!          | pll | pv6 | pv6ll: the calls come AFTER the announcements were added: set_nexthop_ll_addr alone (next to
+//!            the family's default next hop), set_nexthop(Unicast(IPv6)), both
+//!   len  = total encoded size of the (non-MP) path attributes, 0 or >= 3; `<len>+mp14`, `<len>+mp15`, `<len>+mp`:
+//!          the attribute map additionally holds a raw (Unimplemented) copy of MP_REACH_NLRI / MP_UNREACH_NLRI / both,
+//!          put there through the public PaMap::add_attribute (audit C06-1a): they must not reach the wire
 //! Reply: per produced PDU `len:nWd:nAnn:attrLen:nhLen:paLenField` as judged by the
 //! independent decoder below (written from RFC 4271 / 4760 / 7911 / 8277 / 4364 / 4684 /
 //! 8955 / 4761 / 7432; it shares no code with routecore). The NLRI of the families added later
@@ -53,7 +58,7 @@ fn fam_of(s: &str) -> Option<Fam> {
 enum Op { Split, Iter, Take, Single }
 
 #[derive(Clone, Copy, PartialEq, Eq, Debug)]
-enum Nh { Default, V4, M4, V6, Ll, Ll2, Ll3, V4ll, Vpn4, Vpn6, Empty, Unimpl }
+enum Nh { Default, V4, M4, V6, M6, Ll, Ll2, Ll3, V4ll, M6ll, Vpn4, Vpn6, Empty, Unimpl, Pll, Pv6, Pv6ll }
 
 #[derive(Clone, Debug)]
 struct Case {
@@ -64,6 +69,9 @@ struct Case {
     ann: Vec<usize>,
     nh: Nh,
     attrs: usize,
+    /// raw copies of MP_REACH_NLRI / MP_UNREACH_NLRI in the attribute map
+    raw14: bool,
+    raw15: bool,
 }
 
 // ---------------------------------------------------------------- parsing
@@ -82,8 +90,8 @@ fn base_size_ok(b: Base, s: usize) -> bool {
         V4mpls | V6mpls => (4..=32).contains(&s),
         // length octet, labels, 8-byte route distinguisher, prefix bytes
         V4vpn | V6vpn => (12..=32).contains(&s),
-        // RFC 4684: 0..=96 bits
-        V4rt => (1..=13).contains(&s),
+        // RFC 4684 4: 0 or 32..=96 bits (the default route target, or at least the origin AS)
+        V4rt => s == 1 || (5..=13).contains(&s),
         // one length octet up to a 239-byte body, two from 240 to 4095; an IPv4 FlowSpec body
         // is a sequence of components, none of which has one byte
         V4fs => s == 1 || (3..=240).contains(&s) || (242..=4097).contains(&s),
@@ -129,11 +137,19 @@ fn parse_line(line: &str) -> Option<Case> {
     let ann = if at == ["-"] { vec![] } else { toks(fam, at)? };
     let nh = match w[n - 3] {
         "-" => Nh::Default, "v4" => Nh::V4, "m4" => Nh::M4, "v6" => Nh::V6, "ll" => Nh::Ll, "ll2" => Nh::Ll2,
-        "vpn4" => Nh::Vpn4, "vpn6" => Nh::Vpn6, "empty" => Nh::Empty, "unimpl" => Nh::Unimpl, "ll3" => Nh::Ll3, "v4ll" => Nh::V4ll, _ => return None,
+        "vpn4" => Nh::Vpn4, "vpn6" => Nh::Vpn6, "empty" => Nh::Empty, "unimpl" => Nh::Unimpl, "ll3" => Nh::Ll3, "v4ll" => Nh::V4ll,
+        "m6" => Nh::M6, "m6ll" => Nh::M6ll, "pll" => Nh::Pll, "pv6" => Nh::Pv6, "pv6ll" => Nh::Pv6ll, _ => return None,
     };
-    let attrs = num(w[n - 1])?;
+    let (al, raw14, raw15) = match w[n - 1].split_once('+') {
+        None => (w[n - 1], false, false),
+        Some((a, "mp14")) => (a, true, false),
+        Some((a, "mp15")) => (a, false, true),
+        Some((a, "mp")) => (a, true, true),
+        Some(_) => return None,
+    };
+    let attrs = num(al)?;
     if attrs == 1 || attrs == 2 { return None; }
-    Some(Case { op, fam, wd, ann, nh, attrs })
+    Some(Case { op, fam, wd, ann, nh, attrs, raw14, raw15 })
 }
 
 // ---------------------------------------------------------------- inputs: values + reference encodings
@@ -283,10 +299,12 @@ fn ref_nh(f: Fam, nh: Nh) -> Vec<u8> {
         // `set_nexthop` not called: the all-zero next hop of the family's natural form
         Nh::Default => { let n = default_nh_bytes(f); v.push(n as u8); v.extend(std::iter::repeat(0u8).take(n)); }
         Nh::V4 | Nh::M4 => { v.push(4); v.extend_from_slice(&V4NH); }
-        Nh::V6 => { v.push(16); v.extend_from_slice(&V6NH); }
-        Nh::Ll | Nh::Ll2 => { v.push(32); v.extend_from_slice(&V6NH); v.extend_from_slice(&LLNH); }
-        // a link-local address given alone: the global one is unspecified (::)
-        Nh::Ll3 => { v.push(32); v.extend_from_slice(&[0; 16]); v.extend_from_slice(&LLNH); }
+        Nh::V6 | Nh::M6 | Nh::Pv6 => { v.push(16); v.extend_from_slice(&V6NH); }
+        // (m6ll: if it is accepted at all, RFC 2545 3 gives the 32-octet form)
+        Nh::Ll | Nh::Ll2 | Nh::Pv6ll | Nh::M6ll => { v.push(32); v.extend_from_slice(&V6NH); v.extend_from_slice(&LLNH); }
+        // a link-local address given alone: the global one is unspecified (::) - which is also the
+        // default next hop of the IPv6 families that `pll` finds in place
+        Nh::Ll3 | Nh::Pll => { v.push(32); v.extend_from_slice(&[0; 16]); v.extend_from_slice(&LLNH); }
         Nh::Vpn4 => { v.push(12); v.extend_from_slice(&RD); v.extend_from_slice(&V4NH); }
         Nh::Vpn6 => { v.push(24); v.extend_from_slice(&RD); v.extend_from_slice(&V6NH); }
         Nh::Empty => v.push(0),
@@ -343,9 +361,13 @@ fn ref_attrs(len: usize) -> Vec<u8> {
     v
 }
 
-fn build_pamap(len: usize) -> (PaMap, usize) {
+fn build_pamap(len: usize, raw14: bool, raw15: bool) -> (PaMap, usize) {
     let (o, l, c, fill) = attr_plan(len);
     let mut m = PaMap::empty();
+    // raw copies of the MP attributes (IPv4 unicast, no NLRI), as `WireformatPathAttribute::to_owned`
+    // makes them from a received UPDATE
+    if raw14 { m.add_attribute(PathAttribute::Unimplemented(UnimplementedPathAttribute::new(0x80.into(), 14, vec![0, 1, 1, 0, 0]))).unwrap(); }
+    if raw15 { m.add_attribute(PathAttribute::Unimplemented(UnimplementedPathAttribute::new(0x80.into(), 15, vec![0, 1, 1]))).unwrap(); }
     if o { m.set(Origin(OriginType::Igp)); }
     if l { m.set(LocalPref(100)); }
     if fill > 0 {
@@ -487,26 +509,20 @@ fn decode_update(pdu: &[u8], afi: u16, safi: u8, addpath: bool) -> Result<Dec, S
 
 // ---------------------------------------------------------------- running the real code
 
-enum Item { Msg(Vec<u8>), Err(&'static str) }
+/// the property only says "an error": which ComposeError it is (and what its Display says) is
+/// not observed
+enum Item { Msg(Vec<u8>), Err }
 
-struct Run { items: Vec<Item>, hang: bool, rem: Option<bool>, split_err: Option<&'static str>, nh_rejected: bool }
-
-fn kind(e: &ComposeError) -> &'static str {
-    match e {
-        ComposeError::PduTooLarge(_) => "toolarge",
-        ComposeError::EmptyMpReachNlri => "emptyreach",
-        ComposeError::EmptyMpUnreachNlri => "emptyunreach",
-        _ => "other",
-    }
-}
+struct Run { items: Vec<Item>, hang: bool, rem: Option<bool>, split_err: bool, nh_rejected: bool }
 
 fn real_nh(nh: Nh) -> Option<NextHop> {
     let v4 = IpAddr::V4(Ipv4Addr::from(V4NH));
     let v6 = Ipv6Addr::from(V6NH);
     Some(match nh {
-        Nh::Default | Nh::Ll3 => return None,
+        Nh::Default | Nh::Ll3 | Nh::Pll | Nh::Pv6 | Nh::Pv6ll => return None,
         Nh::V4 | Nh::V4ll => NextHop::Unicast(v4),
         Nh::M4 => NextHop::Multicast(v4),
+        Nh::M6 | Nh::M6ll => NextHop::Multicast(IpAddr::V6(v6)),
         Nh::V6 | Nh::Ll2 => NextHop::Unicast(IpAddr::V6(v6)),
         Nh::Ll => NextHop::Ipv6LL(v6, Ipv6Addr::from(LLNH)),
         Nh::Vpn4 => NextHop::MplsVpnUnicast(RouteDistinguisher::new(RD), v4),
@@ -539,11 +555,11 @@ macro_rules! run_family {
         let cfg: &SessionConfig = $cfg;
         let mk = $mk;
         let build = || -> UpdateBuilder<Vec<u8>, $A> {
-            let (pamap, ncomm) = build_pamap(c.attrs);
+            let (pamap, ncomm) = build_pamap(c.attrs, c.raw14, c.raw15);
             let mut b = UpdateBuilder::<Vec<u8>, $A>::from_attributes_builder(pamap);
             for i in 0..ncomm { b.add_community(StandardCommunity::from_raw(comm_raw(i))).unwrap(); }
             if let Some(nh) = real_nh(c.nh) { b.set_nexthop(nh).unwrap(); }
-            if matches!(c.nh, Nh::Ll2 | Nh::Ll3 | Nh::V4ll) { b.set_nexthop_ll_addr(Ipv6Addr::from(LLNH)).unwrap(); }
+            if matches!(c.nh, Nh::Ll2 | Nh::Ll3 | Nh::V4ll | Nh::M6ll) { b.set_nexthop_ll_addr(Ipv6Addr::from(LLNH)).unwrap(); }
             match &c.wd {
                 None => {}
                 Some(v) if v.is_empty() => {
@@ -560,22 +576,33 @@ macro_rules! run_family {
                 }
             }
             for (i, s) in c.ann.iter().enumerate() { b.add_announcement(mk(*s, i)).unwrap(); }
+            // the next-hop calls that come after the announcements
+            if matches!(c.nh, Nh::Pv6 | Nh::Pv6ll) { b.set_nexthop(NextHop::Unicast(IpAddr::V6(Ipv6Addr::from(V6NH)))).unwrap(); }
+            if matches!(c.nh, Nh::Pll | Nh::Pv6ll) { b.set_nexthop_ll_addr(Ipv6Addr::from(LLNH)).unwrap(); }
             b
         };
         let n_nlri = c.wd.as_ref().map_or(0, |v| v.len()) + c.ann.len();
         let bound = n_nlri + 2;
-        let mut run = Run { items: vec![], hang: false, rem: None, split_err: None, nh_rejected: false };
-        // a next hop without a wire form must be refused where it is set
+        let mut run = Run { items: vec![], hang: false, rem: None, split_err: false, nh_rejected: false };
+        // a next hop without a wire form must be refused where it is set: the same calls in the
+        // same order on a probe (one announcement stands for all of them)
         {
             let mut probe = UpdateBuilder::<Vec<u8>, $A>::new_vec();
             if let Some(nh) = real_nh(c.nh) { if probe.set_nexthop(nh).is_err() { run.nh_rejected = true; } }
-            if !run.nh_rejected && matches!(c.nh, Nh::Ll2 | Nh::Ll3 | Nh::V4ll) {
+            if !run.nh_rejected && matches!(c.nh, Nh::Ll2 | Nh::Ll3 | Nh::V4ll | Nh::M6ll) {
+                if probe.set_nexthop_ll_addr(Ipv6Addr::from(LLNH)).is_err() { run.nh_rejected = true; }
+            }
+            if !run.nh_rejected && !c.ann.is_empty() { probe.add_announcement(mk(c.ann[0], 0)).unwrap(); }
+            if !run.nh_rejected && matches!(c.nh, Nh::Pv6 | Nh::Pv6ll) {
+                if probe.set_nexthop(NextHop::Unicast(IpAddr::V6(Ipv6Addr::from(V6NH)))).is_err() { run.nh_rejected = true; }
+            }
+            if !run.nh_rejected && matches!(c.nh, Nh::Pll | Nh::Pv6ll) {
                 if probe.set_nexthop_ll_addr(Ipv6Addr::from(LLNH)).is_err() { run.nh_rejected = true; }
             }
         }
         let as_item = |r: Result<UpdateMessage<Vec<u8>>, ComposeError>| match r {
             Ok(m) => Item::Msg(m.as_ref().to_vec()),
-            Err(e) => Item::Err(kind(&e)),
+            Err(_) => Item::Err,
         };
         // every op first pulls the iterator under the proven bound: the loop of
         // into_messages must not be entered when it cannot end
@@ -593,7 +620,7 @@ macro_rules! run_family {
                 if over { run.hang = true; } else {
                     match build().into_messages(cfg) {
                         Ok(v) => run.items = v.into_iter().map(|m| Item::Msg(m.as_ref().to_vec())).collect(),
-                        Err(e) => run.split_err = Some(kind(&e)),
+                        Err(_) => run.split_err = true,
                     }
                 }
             }
@@ -693,8 +720,16 @@ fn mp_unreach_len(nlri: usize) -> usize { let v = 3 + nlri; v + if v > 255 { 4 }
 fn judge(c: &Case) -> Verdict {
     let run = run_case(c);
     if run.nh_rejected {
-        // refusing a next hop that cannot be encoded is the error the property asks for
-        return Verdict { reply: "err nexthop".into(), ok: if c.nh == Nh::Unimpl || c.nh == Nh::V4ll { Ok(()) } else { Err("an encodable next hop was refused".into()) } };
+        // refusing a next hop that cannot be encoded is the error the property asks for: the next hop
+        // of an unsupported family, and a link-local address next to anything but an IPv6 unicast
+        // next hop (routecore's NextHop has the 32-octet form for Unicast(V6) only)
+        let no_form = match c.nh {
+            Nh::Unimpl | Nh::V4ll | Nh::M6ll => true,
+            // next to the default next hop of the family the announcements brought in
+            Nh::Pll => !c.ann.is_empty() && !matches!(c.fam.b, V6u | V6mpls),
+            _ => false,
+        };
+        return Verdict { reply: "err nexthop".into(), ok: if no_form { Ok(()) } else { Err("an encodable next hop was refused".into()) } };
     }
     let (afi, safi, ap) = afisafi(c.fam);
     let exp_wd: Vec<Vec<u8>> = c.wd.as_ref().map_or(vec![], |v| v.iter().enumerate().map(|(i, s)| ref_nlri(c.fam, *s, 1_000_000 + i)).collect());
@@ -706,10 +741,10 @@ fn judge(c: &Case) -> Verdict {
     let mut got_wd: Vec<Vec<u8>> = Vec::new();
     let mut got_ann: Vec<Vec<u8>> = Vec::new();
     let input_empty = exp_wd.is_empty() && exp_ann.is_empty();
-    let mut any_err = run.split_err.is_some();
+    let mut any_err = run.split_err;
     for (k, it) in run.items.iter().enumerate() {
         match it {
-            Item::Err(e) => { any_err = true; descs.push(format!("E:{}", e)); }
+            Item::Err => { any_err = true; descs.push("E".to_string()); }
             Item::Msg(raw) => match decode_update(raw, afi, safi, ap) {
                 Err(e) => { why.push(format!("message {} is malformed: {}", k, e)); descs.push(format!("malformed({})", e)); }
                 Ok(d) => {
@@ -758,7 +793,7 @@ fn judge(c: &Case) -> Verdict {
     }
     let reply = if run.hang { "hang".to_string() } else {
         match c.op {
-            Op::Split => match run.split_err { Some(e) => format!("err {}", e), None => format!("ok {} {}", descs.len(), descs.join(" ")).trim_end().to_string() },
+            Op::Split => if run.split_err { "err".to_string() } else { format!("ok {} {}", descs.len(), descs.join(" ")).trim_end().to_string() },
             Op::Iter => format!("{} {}", descs.len(), descs.join(" ")).trim_end().to_string(),
             Op::Take => format!("{} {}", descs[0], if run.rem == Some(true) { "some" } else { "none" }),
             Op::Single => descs[0].clone(),
@@ -798,9 +833,9 @@ impl Prop for C06 {
         let w: Vec<&str> = line.split(' ').collect();
         let op = w.first().copied().unwrap_or("");
         let fam = w.get(1).copied().unwrap_or("");
-        let n = reply.split(' ').filter(|t| t.contains(':') && !t.starts_with("E:")).count();
+        let n = reply.split(' ').filter(|t| t.contains(':')).count();
         let out = if reply == "bad-op" || reply == "panic" || reply == "hang" { reply.to_string() }
-            else if reply.contains("err") || reply.contains("E:") { "error".to_string() }
+            else if reply.starts_with("err") || reply.split(' ').any(|t| t == "E") { "error".to_string() }
             else if n <= 1 { "one-pdu".to_string() } else if n <= 3 { "2-3-pdus".to_string() } else { "4+-pdus".to_string() };
         format!("{}:{}:{}", op, fam, out)
     }
@@ -820,13 +855,14 @@ fn size_range(f: Fam) -> (usize, usize) {
     if f.ap { (lo + 4, hi + 4) } else { (lo, hi) }
 }
 fn nh_len(f: Fam, nh: &str) -> usize {
-    match nh { "v4" | "m4" | "v4ll" => 5, "v6" => 17, "ll" | "ll2" | "ll3" => 33, "vpn4" => 13, "vpn6" => 25, "empty" => 1,
+    match nh { "v4" | "m4" | "v4ll" => 5, "v6" | "m6" | "pv6" => 17, "ll" | "ll2" | "ll3" | "m6ll" | "pv6ll" => 33, "vpn4" => 13, "vpn6" => 25, "empty" => 1,
+        "pll" => if matches!(f.b, V6u | V6mpls) { 33 } else { 1 + default_nh_bytes(f) },
         _ => 1 + default_nh_bytes(f) }
 }
 /// the next-hop forms a family is used with (RFC 4760 3, 2545 3, 8277, 4364 4.3.2, 4659 3.2.1, 8955 4)
 fn natural_nhs(f: Fam) -> &'static [&'static str] {
-    match f.b { V4u | V4rt | Vpls | Evpn => &["v4"], V4m => &["m4", "v4"], V6u => &["v6", "ll", "ll2", "ll3"], V6m => &["v6"],
-        V4mpls | V6mpls => &["v4", "v6", "ll"], V4vpn => &["vpn4"], V6vpn => &["vpn6"], V4fs | V6fs => &["empty"] }
+    match f.b { V4u | V4rt | Vpls | Evpn => &["v4"], V4m => &["m4", "v4"], V6u => &["v6", "ll", "ll2", "ll3", "pll", "pv6", "pv6ll"], V6m => &["v6", "m6", "pv6"],
+        V4mpls | V6mpls => &["v4", "v6", "ll", "pv6ll"], V4vpn => &["vpn4"], V6vpn => &["vpn6"], V4fs | V6fs => &["empty"] }
 }
 
 fn fix_size(f: Fam, s: usize) -> usize {
@@ -891,7 +927,7 @@ fn line(op: &str, f: Fam, wd: &[String], ann: &[String], nh: &str, attrs: usize)
 /// the eight NLRI types of the first version of this check: they keep the full boundary block
 const FAMS: [Fam; 8] = [Fam { b: V4u, ap: false }, Fam { b: V6u, ap: false }, Fam { b: V4u, ap: true }, Fam { b: V6u, ap: true },
     Fam { b: V6fs, ap: false }, Fam { b: V4m, ap: false }, Fam { b: V6m, ap: false }, Fam { b: V4mpls, ap: false }];
-const NHS: [&str; 12] = ["-", "v4", "m4", "v6", "ll", "ll2", "vpn4", "vpn6", "empty", "unimpl", "ll3", "v4ll"];
+const NHS: [&str; 17] = ["-", "v4", "m4", "v6", "ll", "ll2", "vpn4", "vpn6", "empty", "unimpl", "ll3", "v4ll", "m6", "m6ll", "pll", "pv6", "pv6ll"];
 const OPS: [&str; 4] = ["split", "iter", "take", "single"];
 
 fn all_fams() -> Vec<Fam> {
@@ -1011,6 +1047,33 @@ fn gen(rng: &mut Rng, tier: Tier) -> Vec<String> {
     }
     // ---- the other 18 NLRI types
     for f in all_fams() { if !FAMS.contains(&f) { gen_boundary_reduced(&mut v, f); } }
+    // ---- every NLRI type: the next-hop calls in every order (audit C06-3a/3b), raw copies of the
+    // MP attributes in the attribute map (audit C06-1a), attributes next to withdrawals only (C06-1c)
+    for f in all_fams() {
+        let (lo, hi) = size_range(f);
+        let hi = fix_size(f, hi.min(36));
+        let l1 = [format!("{}", lo)];
+        let mix = [format!("{}x3", lo), format!("{}", hi)];
+        for nh in ["m6", "m6ll", "pll", "pv6", "pv6ll", "ll3", "ll2"] {
+            v.push(line("split", f, &[], &mix, nh, 11));
+            v.push(line("iter", f, &l1, &[format!("{}x1500", hi)], nh, 300));
+            v.push(line("single", f, &[], &[], nh, 0));
+        }
+        for sfx in ["+mp14", "+mp15", "+mp"] {
+            v.push(format!("{}{}", line("split", f, &[], &l1, "-", 4), sfx));
+            v.push(format!("{}{}", line("iter", f, &l1, &[], "-", 4), sfx));
+            v.push(format!("{}{}", line("split", f, &mix, &[format!("{}x1500", hi)], natural_nhs(f)[0], 64), sfx));
+            v.push(format!("{}{}", line("single", f, &[], &l1, "-", 0), sfx));
+            v.push(format!("{}{}", line("take", f, &l1, &l1, "-", 0), sfx));
+            v.push(format!("{}{}", line("split", f, &[], &[], "-", 0), sfx));
+        }
+        // one withdrawal next to attributes that fill a PDU: sent alone, the attributes have no
+        // announcement to describe
+        for attrs in [4060usize, 4066, 4073, 4094, 9000] {
+            v.push(line("split", f, &l1, &[], "-", attrs));
+            v.push(line("iter", f, &[format!("{}x2000", lo)], &[], "-", attrs));
+        }
+    }
     // ---- large single NLRI (FlowSpec): each size class around what fits alone
     let v6fs = Fam { b: V6fs, ap: false };
     for op in OPS {
@@ -1056,7 +1119,9 @@ fn gen(rng: &mut Rng, tier: Tier) -> Vec<String> {
               "split evpn wd 1 ann - nh - attrs 0", "split evpn wd 258 ann - nh - attrs 0", "split evpna wd 262 ann - nh - attrs 0",
               "split v4vpn wd 11 ann - nh - attrs 0", "split v6vpn wd 33 ann - nh - attrs 0", "split v6vpna wd 15 ann - nh - attrs 0",
               "split v4rt wd 14 ann - nh - attrs 0", "split v6mpls wd 3 ann - nh - attrs 0", "split v6mplsa wd 37 ann - nh - attrs 0",
-              "split a wd - ann - nh - attrs 0", "split v4uaa wd 9 ann - nh - attrs 0", "split v6rt wd 1 ann - nh - attrs 0"] {
+              "split a wd - ann - nh - attrs 0", "split v4uaa wd 9 ann - nh - attrs 0", "split v6rt wd 1 ann - nh - attrs 0",
+              "split v4u wd - ann 5 nh - attrs 4+mp16", "split v4u wd - ann 5 nh - attrs 4+", "split v4u wd - ann 5 nh - attrs +mp14",
+              "split v4u wd - ann 5 nh - attrs 4+mp+mp", "split v4u wd - ann 5 nh llp attrs 4"] {
         v.push(s(l));
     }
     // ---- random mixes
@@ -1088,7 +1153,8 @@ fn gen(rng: &mut Rng, tier: Tier) -> Vec<String> {
             }
             _ => (rand_list(rng, f, budget), rand_list(rng, f, budget)),
         };
-        v.push(line(op, f, &wd, &ann, nh, attrs));
+        let sfx = match rng.below(30) { 0 => "+mp14", 1 => "+mp15", 2 => "+mp", _ => "" };
+        v.push(format!("{}{}", line(op, f, &wd, &ann, nh, attrs), sfx));
     }
     v
 }
